@@ -266,9 +266,18 @@ const PRIM_PROGS: [(&str, &str, &str, &str); 5] = [
      "let a = m::X(Yes, Yes); let b = m::X(Yes, Yes); let mut c = &a + &b; c -= &a; c -= ::core::clone::Clone::clone(&a); let d = -&c; let e = !d; let _ = (a + b) + &e; out.push_str(\"ok\");"),
 ];
 
+/// A blanket trait whose BY-VALUE methods carry the names of methods generated code might call with method syntax
+/// (`x.finish()`, `x.field(..)`, `x.clone()`, ..): by-value candidates win over inherent `&self` / `&mut self` ones.
+const HOSTILE: &str = "pub mod hostile {\n    pub trait Hostile: Sized {\n        fn finish(self) -> ::core::fmt::Result { ::core::result::Result::Err(::core::fmt::Error) }\n        fn field(self, _a: &str, _b: &dyn ::core::fmt::Debug) -> Self { self }\n        fn finish_non_exhaustive(self) -> ::core::fmt::Result { ::core::result::Result::Err(::core::fmt::Error) }\n        fn clone(self) -> Self { self }\n        fn clone_from(self, _o: &Self) {}\n        fn eq(self, _o: &Self) -> bool { false }\n        fn ne(self, _o: &Self) -> bool { false }\n        fn cmp(self, _o: &Self) -> ::core::cmp::Ordering { ::core::cmp::Ordering::Less }\n        fn partial_cmp(self, _o: &Self) -> ::core::option::Option<::core::cmp::Ordering> { ::core::option::Option::None }\n        fn hash(self, _h: &mut dyn ::core::hash::Hasher) {}\n        fn then(self, _o: ::core::cmp::Ordering) -> ::core::cmp::Ordering { ::core::cmp::Ordering::Less }\n        fn reverse(self) -> ::core::cmp::Ordering { ::core::cmp::Ordering::Less }\n        fn is_eq(self) -> bool { false }\n        fn into(self) -> Self { self }\n        fn neg(self) -> Self { self }\n        fn not(self) -> Self { self }\n        fn add(self, _o: Self) -> Self { self }\n        fn deref(self) -> Self { self }\n    }\n    impl<T> Hostile for T {}\n}\n";
+
 fn prim_program(pi: usize, name: &str) -> String {
     let (_, _, def, run) = PRIM_PROGS[pi];
-    ::std::format!("use dxrt::V;\nuse dxrt::probe::Yes;\npub mod m {{\nuse derive_ex::derive_ex;\n{}}}\npub fn run() -> String {{\n    let mut out = String::new();\n    {}\n    out\n}}\n", def.replace("§P", name), run.replace("§P", name))
+    let (name, hostile) = match name.strip_suffix("#hostile-methods") {
+        Some(n) => (n, true),
+        None => (name, false),
+    };
+    let (top, import) = if hostile { (HOSTILE, "use super::hostile::Hostile as _;\n") } else { ("", "") };
+    ::std::format!("use dxrt::V;\nuse dxrt::probe::Yes;\n{top}pub mod m {{\nuse derive_ex::derive_ex;\n{import}{}}}\npub fn run() -> String {{\n    let mut out = String::new();\n    {}\n    out\n}}\n", def.replace("§P", name), run.replace("§P", name))
 }
 
 fn primitive_names(ctx: &Ctx, rep: &mut Report, only: Option<(usize, String)>) {
@@ -284,6 +293,8 @@ fn primitive_names(ctx: &Ctx, rep: &mut Report, only: Option<(usize, String)>) {
                 for n in PRIMITIVES {
                     todo.push((pi, n.to_string()));
                 }
+                // the neutral name, but next to a trait in scope whose by-value methods shadow inherent ones
+                todo.push((pi, "Hijack#hostile-methods".to_string()));
             }
         }
     }
